@@ -124,6 +124,6 @@ Definition lex_tested (c : cas) : bool :=
 Definition premises (c : case) : bool :=
   let s := full_schema (c_user c) in
   match save_json std_lex s (c_mode c) (c_cas c) with
-  | Ok (_, c') => wf_jsonb s c' && ids_distinctb s c' && stableb std_lex s (c_cas c) && lex_tested c'
+  | Ok (_, c') => wf_jsonb s c' && ids_distinctb s c' && (0 <? c_next_id (c_cas c)) && lex_tested c'
   | _ => false
   end.
